@@ -274,6 +274,22 @@ macro_rules! wide_service {
                 $( r.add_handler::<$msg>(); )+
             }
         }
+        wide_service!(@handlers $svc, $tag, [$(($msg, $mtag)),+]);
+    };
+    // a service that names itself (`RpcService::service_name` is documented as overridable)
+    ($svc:ident, $tag:expr, named $name:expr, [$(($msg:ty, $mtag:expr)),+]) => {
+        pub struct $svc;
+        impl RpcService for $svc {
+            fn service_name() -> &'static str {
+                $name
+            }
+            fn register_handlers(r: &mut ServiceRegistry<Self>) {
+                $( r.add_handler::<$msg>(); )+
+            }
+        }
+        wide_service!(@handlers $svc, $tag, [$(($msg, $mtag)),+]);
+    };
+    (@handlers $svc:ident, $tag:expr, [$(($msg:ty, $mtag:expr)),+]) => {
         $(
             #[datacake_rpc::async_trait]
             impl Handler<$msg> for $svc {
@@ -285,12 +301,17 @@ macro_rules! wide_service {
         )+
     };
 }
+// Names in the styles real services have (since the seeded change `C13m`): the type name (default), the type name of
+// a generic type (what datacake's own ConsistencyService<S> / ReplicationService<S> get; `<` and `>` are rewritten
+// in the request path), a generic nested in a generic whose rewritten form EXTENDS the rewritten form of another
+// service, a name that is a proper prefix of another service's name, and a short custom name. All six rewritten
+// names are distinct, so the six services never collide.
 wide_service!(W0, 10, [(M0, 0), (M1, 1), (M2, 2), (M3, 3)]);
-wide_service!(W1, 11, [(M0, 0)]);
-wide_service!(W2, 12, [(M1, 1), (M2, 2)]);
-wide_service!(W3, 13, [(M3, 3)]);
+wide_service!(W1, 11, named "vp::c13::Store<vp::c13::Mem>", [(M0, 0)]);
+wide_service!(W2, 12, named "vp::c13::Store<vp::c13::Mem<u8>>", [(M1, 1), (M2, 2)]);
+wide_service!(W3, 13, named "vp::c13::W", [(M3, 3)]);
 wide_service!(W4, 14, [(M0, 0), (M2, 2), (M3, 3)]);
-wide_service!(W5, 15, [(M1, 1)]);
+wide_service!(W5, 15, named "w5", [(M1, 1)]);
 
 pub struct Wide;
 
